@@ -27,13 +27,23 @@ CASE_FIELDS = ("id", "vers", "suite", "key", "auth", "dir", "idx", "kind", "pos"
 
 
 def sig_of(f):
-    return {k: f[k] for k in ("kind", "fault", "sub", "dir", "rtype", "vers") if k in f}
+    s = {k: f[k] for k in ("kind", "fault", "sub", "dir", "rtype", "vers") if k in f}
+    if f.get("fault") == "inject":
+        s["transport"] = ["healthy", "write-fails", "eof-after-message", "closed"][f.get("pos", 0)]
+        s["blocked"] = sorted(k for k in ("read", "write", "closewrite", "close") if f.get("calls", {}).get(k) == "hang")
+    return s
 
 
 def to_cands(records, rejects):
     cands = []
     for idx, facts in rejects:
         rec = records[idx]
+        if rec["kind"] == "inject":
+            what = "%s after a genuine %s sent to the %s (TLS 1.%d) while the transport was %s: calls %s" % (
+                KIND_WHAT.get(facts["kind"], facts["kind"]), rec["sub"], "client" if rec["dir"] == 1 else "server", rec["vers"] - 10,
+                ["healthy", "failing on writes", "at EOF after the message", "closed"][rec["pos"]], json.dumps(rec["calls"]))
+            cands.append({"sig": sig_of(facts), "what": what, "case": {k: rec[k] for k in CASE_FIELDS}})
+            continue
         side = "client" if (rec["obs"]["cpanic"] or rec["obs"]["chang"]) else "server" if (rec["obs"]["spanic"] or rec["obs"]["shang"]) else "-"
         what = "%s: %s (TLS 1.%d suite %s key %s auth %d; fault %s/%s on direction %d record %d (type %d) pos %d; client err=%r server err=%r; log: %s)" % (
             KIND_WHAT.get(facts["kind"], facts["kind"]), side, rec["vers"] - 10, rec["suite"], rec["key"], rec["auth"], rec["kind"], rec["sub"],
@@ -103,7 +113,16 @@ def run(ctx):
         for d in (0, 1):
             if fired.get((kind, d), 0) < 10:
                 raise Machinery("fault kind %s in direction %d fired only %d times (vacuous)" % (kind, d, fired.get((kind, d), 0)))
-    outcomes = {"failed_client": sum(1 for r in allrecs if r["fired"] and not r["obs"]["cdone"]),
+    inj = [r for r in allrecs if r["kind"] == "inject"]
+    inj_cov = {"cases": len(inj),
+               "keyupdate_answered": sum(1 for r in inj if r["sub"] == "keyupdate1" and r["pos"] == 0 and r["calls"]["answered"] >= 1),
+               "hellorequest_answered": sum(1 for r in inj if r["sub"] == "hellorequest" and r["pos"] == 0 and r["calls"]["answered"] >= 1),
+               "with_failing_writes": sum(1 for r in inj if r["pos"] == 1 and r["calls"]["write"] == "ret"),
+               "calls_returned": sum(1 for r in inj for k in ("read", "write", "closewrite", "close") if r["calls"][k] == "ret")}
+    if inj_cov["keyupdate_answered"] < 4 or inj_cov["hellorequest_answered"] < 2 or not inj_cov["with_failing_writes"]:
+        raise Machinery("vacuous coverage of the data-phase injections (the injected messages are not accepted as genuine?): %s" % inj_cov)
+    outcomes = {"data_phase_injections": inj_cov,
+                "failed_client": sum(1 for r in allrecs if r["fired"] and not r["obs"]["cdone"]),
                 "failed_server": sum(1 for r in allrecs if r["fired"] and not r["obs"]["sdone"]),
                 "survived_benign": sum(1 for r in allrecs if r["fired"] and r["kind"] in ("split", "refrag") and r["obs"]["cdone"] and r["obs"]["sdone"]),
                 "record_types_hit": sorted({r["rtype"] for r in allrecs if r["fired"] and r["kind"] != "stream"}),
